@@ -46,7 +46,8 @@ def _add(target, decoder, name, extra_args=None, requires=None, lengths=(0, 1, 2
         UNITS.append(Contract(
             target, list(prop), specs=S, name=f"{name}[len={k}]", args=args,
             requires=requires or [],
-            ensures=[("literal-denotes-the-text", f"{decoder} == {CODES}")] + (ensures_extra or []),
+            ensures=[("literal-denotes-the-text", f"{decoder} == {CODES}"),
+                     ("survives-line-wise-indentation", "no_line_boundary(result)")] + (ensures_extra or []),
             twins=[("denotes-something-else", f"{decoder} != {CODES}")] if k > 0 else
                   [("not-a-literal", f"{decoder} is None")],
             use_as_callee=False, max_paths=20000,
